@@ -832,6 +832,14 @@ func TestC20(t *testing.T) {
 			}
 			cc.envs = append(cc.envs, c20Env(r, n, r.Intn(2) == 0))
 		}
+		same := k%6 == 3
+		if same {
+			// several interfaces on one network: every writer installs byte for byte the same file; a reader still never sees
+			// anything but the previous content or that file, complete
+			for w := range cc.envs {
+				cc.envs[w] = cc.envs[0]
+			}
+		}
 		var ik string
 		cc.init, ik = c20Init(r, r.Intn(3))
 		if k%4 == 1 {
@@ -847,6 +855,9 @@ func TestC20(t *testing.T) {
 		}
 		if big {
 			kind += "-big"
+		}
+		if same {
+			kind += "-same"
 		}
 		kinds = append(kinds, kind+"/"+ik)
 	}
